@@ -8,7 +8,9 @@
     rebuilt in place whose [class:on] toggle was on and whose class string / toggle do not put
     the token back (F-C03-c), and a retained row of a keyed list already shows what its item
     view shows (tachys does not call view_fn again for a retained key).
-    Covered: text (String, &str, i32), unit, elements with id / hidden / class / class:on /
+    Covered: text (String, &str, i32), unit, elements (the tag is an arbitrary number in the
+    model and in every theorem: p / span / div and the raw-text elements textarea / style /
+    script / noscript of the harness are instances) with id / hidden / class / class:on /
     style attributes, tuples, arrays, Either, EitherOf3, Option, Vec, keyed lists (through
     C11's theorem, the item views being arbitrary views of this grammar), AnyView type changes.
     All theorems are for arbitrary sibling contexts, nesting depth and histories. *)
